@@ -311,6 +311,37 @@ def main(tier, replay=None):
                           f"a propagation of the {ev['engine']} engine violates {clause} of TraceEngine.tla: "
                           f"{json.dumps({k: ev.get(k) for k in ('stored', 'recomp', 'expect', 'start', 'left', 'right', 'success', 'vrev', 'raised', 'must_raise', 'retrace', 'retrace_of', 'args')})[:700]}",
                           {"property": PID, "binding": "C", "spec": "TraceEngine", "clause": clause, "observed": ev})
+        # the binding demonstrated: an accepted recorded propagation, corrupted in one field at a time, has to be rejected
+        import copy
+        good = next((e for i, e in enumerate(events) if not e["raised"] and e["engine"] in EXTERNAL and len(e["stored"]) >= 3 and e["success"]
+                     and not any(i == b for b, _c in bad)), None)
+        if good is None:
+            chk.machinery("self-test: no accepted external propagation of three frames or more")
+        else:
+            muts = [("unchanged", lambda e: None, None),
+                    ("one stored order parameter shifted", lambda e: e["stored"].__setitem__(1, e["stored"][1] + 5000), {"E_OrdersRecomputed", "E_RanFromStart"}),
+                    ("a velocity-direction flag flipped", lambda e: e["vrev"].__setitem__(1, not e["vrev"][1]), {"E_VelocityDirection"}),
+                    ("the frame references shifted by one", lambda e: e.__setitem__("refs", [r + 1 for r in e["refs"]]), {"E_FramesInOrder"}),
+                    ("success reported for a path that ends inside", lambda e: (e["stored"].pop(), e["recomp"].pop(), e["refs"].pop(), e["vrev"].pop()), {"E_StopRule"}),
+                    ("the program left running", lambda e: e.__setitem__("program_stopped", False), {"E_ProgramStopped"})]
+            vs = []
+            for _name, fn, _exp in muts:
+                e2 = copy.deepcopy(good)
+                fn(e2)
+                vs.append(e2)
+            sbad, sok = validate(chk, vs, os.path.join(work, "selftest")) if os.makedirs(os.path.join(work, "selftest"), exist_ok=True) is None else ([], False)
+            got = {}
+            for idx, clause in sbad:
+                got.setdefault(idx, set()).add(clause)
+            rep = []
+            for k, (name, _fn, exp) in enumerate(muts):
+                rep.append({"corruption": name, "rejected_by": sorted(got.get(k, ()))})
+                if k == 0 and got.get(0):
+                    chk.machinery(f"self-test: the uncorrupted propagation is rejected by {sorted(got[0])}")
+                elif k > 0 and not (got.get(k, set()) & exp):
+                    chk.machinery(f"self-test: TraceEngine did not reject '{name}' by a clause that concerns it (got {sorted(got.get(k, ()))})")
+            chk.cov["binding_selftest"] = rep
+            print("  binding self-test (TraceEngine): " + "; ".join(f"{r['corruption']} -> {', '.join(r['rejected_by']) or 'accepted'}" for r in rep[1:]), flush=True)
         chk.evaluated(len(events))
         chk.traces(len(events))
         for i, ev in enumerate(events):
